@@ -245,7 +245,10 @@ func (d *DBFT[H]) onTimeout(height uint32, view byte, force bool) {
 
 // OnReceive advances state machine in accordance with msg.
 func (d *DBFT[H]) OnReceive(msg ConsensusPayload[H]) {
-	if int(msg.ValidatorIndex()) >= len(d.Validators) {
+	// The index can be checked against the validators of the current height only,
+	// payloads of the next heights (the list may change) are checked when they're
+	// taken from the cache.
+	if msg.Height() <= d.BlockIndex && int(msg.ValidatorIndex()) >= len(d.Validators) {
 		d.Logger.Error("too big validator index", zap.Uint16("from", msg.ValidatorIndex()))
 		return
 	}
